@@ -20,6 +20,12 @@ critical section, one single-flight shard-lock critical section, one store read,
 
 `latest` is a ghost field: the value written by the most recent `cacheWrite` (the linearisation
 point of a write), or the initial store content.
+
+NOTE (history): this namespace is the cache WITHOUT the write-generation check that /repo commit
+5fe68af added to `get` (finding F9).  With one foreground task the check never fires, so for one task
+this is still a model of the code; with two or more tasks it is the code BEFORE 5fe68af (kept for the
+witness of F9).  The model of the code as it is, for any number of tasks, is `WideCacheR` below with
+`fix = true`; the correspondence driver runs that one.
 -/
 namespace QbiceVerif.WideCache
 
@@ -198,3 +204,218 @@ def run (s : State) : List Ev → Option (State × List (Option Nat × Option Na
               | none => some (s'', outs)
 
 end QbiceVerif.WideCache
+
+/-!
+## The wide cache as the code is (since /repo 5fe68af, the repair of finding F9)
+
+`WideCacheR` is `WideCache` plus the write-generation counter of `fixes/wide-cache-fill-generation.diff`:
+* `gen` – `write_generation: AtomicU64`, bumped inside the entry-lock critical section of every
+  `insert` / `remove` (event `cacheWrite`);
+* every iteration of the `get` loop first loads it (`readGen`, the task-local `seen`), then probes;
+* with `fix = true` the fill's insert-if-vacant installs the value only if `gen` is still `seen`
+  (otherwise nothing is installed and the loop retries) – the code as it is; with `fix = false` the
+  comparison is not made, which is the code before 5fe68af (the extra load is then a no-op).
+Everything else is copied from `WideCache.fire` step by step.
+-/
+namespace QbiceVerif.WideCacheR
+open QbiceVerif.WideCache (Entry Batch cacheWriteEntry notifyEntry)
+
+inductive Pc where
+  | idle
+  | loop
+  | ready                     -- generation loaded, about to probe
+  | probed
+  | waiting
+  | working
+  | read (v : Option Nat)
+  | filled
+  | writing (v : Option Nat) (updated : Bool)
+deriving DecidableEq, Repr
+
+structure Task where
+  pc : Pc := .idle
+  openB : Option Batch := none
+  seen : Nat := 0
+deriving DecidableEq, Repr
+
+structure State where
+  fix : Bool
+  db : Option Nat
+  entry : Option Entry
+  tasks : List Task
+  sf : Option Nat
+  submitted : List Batch
+  tokens : Nat
+  nextEpoch : Nat
+  expected : Nat
+  gen : Nat
+  latest : Option Nat         -- ghost: value of the most recent `cacheWrite` (or the initial store content)
+deriving DecidableEq, Repr
+
+def init (fix : Bool) (db0 : Option Nat) (ntasks : Nat) : State :=
+  { fix, db := db0, entry := none, tasks := List.replicate ntasks {}, sf := none, submitted := [],
+    tokens := 0, nextEpoch := 0, expected := 0, gen := 0, latest := db0 }
+
+inductive Ev where
+  | begin (t : Nat)
+  | put (t : Nat) (v : Option Nat)
+  | cacheWrite (t : Nat)
+  | submit (t : Nat)
+  | readGen (t : Nat)
+  | probe (t : Nat)
+  | sfEnter (t : Nat)
+  | sfWake (t : Nat)
+  | readDb (t : Nat)
+  | fill (t : Nat)
+  | sfLeave (t : Nat)
+  | commit
+  | notify
+  | evict
+deriving DecidableEq, Repr
+
+def setTask (s : State) (t : Nat) (x : Task) : State := { s with tasks := s.tasks.set t x }
+
+def fire (s : State) : Ev → Option (State × Option (Option Nat))
+  | .begin t =>
+      match s.tasks[t]? with
+      | some ⟨.idle, none, sn⟩ =>
+          some ({ setTask s t ⟨.idle, some ⟨s.nextEpoch, none⟩, sn⟩ with nextEpoch := s.nextEpoch + 1 }, none)
+      | _ => none
+  | .put t v =>
+      match s.tasks[t]? with
+      | some ⟨.idle, some b, sn⟩ =>
+          some (setTask s t ⟨.writing v b.write.isNone, some { b with write := some v }, sn⟩, none)
+      | _ => none
+  | .cacheWrite t =>
+      match s.tasks[t]? with
+      | some ⟨.writing v u, ob, sn⟩ =>
+          some ({ setTask s t ⟨.idle, ob, sn⟩ with
+                  entry := cacheWriteEntry s.entry v u, latest := v, gen := s.gen + 1 }, none)
+      | _ => none
+  | .submit t =>
+      match s.tasks[t]? with
+      | some ⟨.idle, some b, sn⟩ =>
+          some ({ setTask s t ⟨.idle, none, sn⟩ with submitted := s.submitted ++ [b] }, none)
+      | _ => none
+  | .readGen t =>
+      match s.tasks[t]? with
+      | some ⟨.idle, ob, _⟩ => some (setTask s t ⟨.ready, ob, s.gen⟩, none)
+      | some ⟨.loop, ob, _⟩ => some (setTask s t ⟨.ready, ob, s.gen⟩, none)
+      | _ => none
+  | .probe t =>
+      match s.tasks[t]? with
+      | some ⟨.ready, ob, sn⟩ =>
+          match s.entry with
+          | some e => some (setTask s t ⟨.idle, ob, sn⟩, some e.val)
+          | none => some (setTask s t ⟨.probed, ob, sn⟩, none)
+      | _ => none
+  | .sfEnter t =>
+      match s.tasks[t]? with
+      | some ⟨.probed, ob, sn⟩ =>
+          match s.sf with
+          | none => some ({ setTask s t ⟨.working, ob, sn⟩ with sf := some t }, none)
+          | some _ => some (setTask s t ⟨.waiting, ob, sn⟩, none)
+      | _ => none
+  | .sfWake t =>
+      match s.tasks[t]? with
+      | some ⟨.waiting, ob, sn⟩ => some (setTask s t ⟨.loop, ob, sn⟩, none)
+      | _ => none
+  | .readDb t =>
+      match s.tasks[t]? with
+      | some ⟨.working, ob, sn⟩ => some (setTask s t ⟨.read s.db, ob, sn⟩, none)
+      | _ => none
+  | .fill t =>
+      match s.tasks[t]? with
+      | some ⟨.read v, ob, sn⟩ =>
+          let e' := match s.entry with
+            | none => if s.fix && sn != s.gen then none else some { val := v, pin := 0 }
+            | some e => some e
+          some ({ setTask s t ⟨.filled, ob, sn⟩ with entry := e' }, none)
+      | _ => none
+  | .sfLeave t =>
+      match s.tasks[t]? with
+      | some ⟨.filled, ob, sn⟩ => some ({ setTask s t ⟨.loop, ob, sn⟩ with sf := none }, none)
+      | _ => none
+  | .commit =>
+      match s.submitted.find? (fun b => b.epoch = s.expected) with
+      | some b =>
+          some ({ s with
+                  submitted := s.submitted.erase b
+                  db := match b.write with | some w => w | none => s.db
+                  tokens := if b.write.isSome then s.tokens + 1 else s.tokens
+                  expected := s.expected + 1 }, none)
+      | none => none
+  | .notify =>
+      if s.tokens = 0 then none
+      else some ({ s with tokens := s.tokens - 1, entry := notifyEntry s.entry }, none)
+  | .evict =>
+      match s.entry with
+      | some e => if e.pin ≤ 0 then some ({ s with entry := none }, none) else none
+      | none => none
+
+/-- a task's open batch counts as "written to the cache" once it mentions the key, except while the
+task sits between the first `put` of the batch and its `cacheWrite` -/
+def firstPending (t : Task) : Bool :=
+  match t.pc with
+  | .writing _ true => true
+  | _ => false
+
+def cwOpen (t : Task) : Option Batch :=
+  match t.openB with
+  | some b => if b.write.isSome && !firstPending t then some b else none
+  | none => none
+
+/-- The usage assumption under which "latest write" is well defined across tasks: writes of the key
+reach the cache in batch-epoch order.  `cacheWrite t` is *ordered* if every other uncommitted batch
+that has already written the key to the cache has a smaller epoch than `t`'s batch. -/
+def ordered (s : State) (t : Nat) : Bool :=
+  match s.tasks[t]? with
+  | some u =>
+      match u.openB with
+      | some b =>
+          s.submitted.all (fun b' => !b'.write.isSome || decide (b'.epoch < b.epoch)) &&
+          (List.range s.tasks.length).all (fun j =>
+            j == t ||
+            match s.tasks[j]? with
+            | some u' => match cwOpen u' with
+                         | some b' => decide (b'.epoch < b.epoch)
+                         | none => true
+            | none => true)
+      | none => true
+  | none => true
+
+def guardOk (s : State) : Ev → Bool
+  | .cacheWrite t => ordered s t
+  | _ => true
+
+/-- Runs a schedule in which every `cacheWrite` is ordered (`none` otherwise, or when an event is not
+enabled); collects (returned value, `latest`). -/
+def run (s : State) : List Ev → Option (State × List (Option Nat × Option Nat))
+  | [] => some (s, [])
+  | e :: es =>
+      if guardOk s e = false then none else
+      match fire s e with
+      | none => none
+      | some (s', out) =>
+          match run s' es with
+          | none => none
+          | some (s'', outs) =>
+              match out with
+              | some r => some (s'', (r, s'.latest) :: outs)
+              | none => some (s'', outs)
+
+/-- the same without the order requirement (used to show that it is needed) -/
+def runAny (s : State) : List Ev → Option (State × List (Option Nat × Option Nat))
+  | [] => some (s, [])
+  | e :: es =>
+      match fire s e with
+      | none => none
+      | some (s', out) =>
+          match runAny s' es with
+          | none => none
+          | some (s'', outs) =>
+              match out with
+              | some r => some (s'', (r, s'.latest) :: outs)
+              | none => some (s'', outs)
+
+end QbiceVerif.WideCacheR
